@@ -594,6 +594,40 @@ impl<'a> Engine<'a> {
                         n.replay_json(Some(a)),
                     );
                 }
+                if self.continue_after_mismatch {
+                    // the search goes on behind the reported acceptance (what it leads to may be what another property forbids):
+                    // the model takes over the real state's coins (by every candidate id), fee variables and block contents
+                    let mut m = n.model.clone();
+                    let view = next.verif_peek();
+                    let mut ids: BTreeSet<CoinID> = m.coins.keys().cloned().collect();
+                    for tx in txs {
+                        for i in 0..tx.outputs.len().min(255) {
+                            ids.insert(tx.output_coinid(i as u8));
+                        }
+                        if tx.kind == TxKind::Faucet {
+                            ids.insert(crate::refstf::faucet_marker(tx.hash_nosigs()));
+                        }
+                    }
+                    m.coins.clear();
+                    for id in ids {
+                        if let Some(c) = view.coin(id) {
+                            m.coins.insert(id, c);
+                        }
+                    }
+                    let h = view.header();
+                    m.fee_pool = h.fee_pool.0;
+                    m.dosc_speed = h.dosc_speed;
+                    m.tips = next.verif_tips().0;
+                    for tx in txs {
+                        m.block_txs.insert(tx.hash_nosigs(), tx.clone());
+                    }
+                    let child = n.child(Real::Open(next), m, a);
+                    let after = observe(&child);
+                    if after.coins == model_coin_entries(&child.model) {
+                        return StepOut::Next(child);
+                    }
+                    run.outcome("batch:resync-incomplete(branch not explored further)");
+                }
                 StepOut::Pruned
             }
             (Ok(()), Ok(model)) => {
